@@ -50,7 +50,10 @@ def filter_profile(pid, r):
         regions = []
         cfg["regions"] = []
     if pid == "C07":
-        opts["rel"] = r.random() < 0.7
+        # relative moves produce round-off in the tracked values; with "G90/G91 influence the
+        # extruder" they would also switch to relative extrusion, which is outside C04's quantifier
+        # (the intended-value check of C07 re-uses the C03/C04 judgements)
+        opts["rel"] = (r.random() < 0.7) and not cfg["g90e"]
         opts["retract_len"] = r.choice([1.0, 0.00001, 0.00002, 12345678.0])
         opts["tiny"] = r.random() < 0.6
         opts["g92e"] = True
@@ -61,6 +64,9 @@ def filter_profile(pid, r):
         opts["addregion"] = True
     if r.random() < 0.45:
         opts["wipe"] = (pid in ("C09", "C01", "C02")) and r.random() < 0.4
+        if r.random() < 0.3 and not cfg["g90e"]:
+            opts["rel"] = True
+            opts["inch"] = True
         ops = gen.gen_episode_path(r, regions, opts)
     else:
         ops = gen.gen_path(r, regions, opts)
